@@ -357,6 +357,21 @@ func (h *hand) deliver(m *msg) {
 	if len(r.steps) >= h.cap {
 		return
 	}
+	// server crash faults around one operation. Crash before the new state
+	// is durable: the operation is lost together with the warm game, the
+	// client will retransmit. Crash after it is durable but before anybody
+	// hears about it: the broadcast is lost and the warm game is gone, the
+	// client retransmits and the server sees a duplicate.
+	crashAfter := false
+	if h.faultsOn && h.fc.Restart > 0 {
+		x := h.rng.Float()
+		if x < h.fc.Restart/12 {
+			r.res.Count("fault.crash-before-durable", 1)
+			r.srv.warm = nil
+			return
+		}
+		crashAfter = x < h.fc.Restart/6
+	}
 	st := sim.Step{T: h.loop.Now, Actor: m.actor, Op: m.op, Args: m.args, Fault: m.fault}
 	if st.Fault == "" && m.ver < r.srv.version {
 		st.Fault = "stale"
@@ -379,6 +394,11 @@ func (h *hand) deliver(m *msg) {
 		for _, c := range h.cl {
 			c.stalled = false
 		}
+	}
+	if crashAfter {
+		r.res.Count("fault.crash-after-durable-before-ack", 1)
+		r.srv.warm = nil
+		return // nobody is told; the heartbeat will re-announce the state
 	}
 	h.broadcast()
 }
